@@ -50,6 +50,11 @@ pub fn install_panic_hook() {
     });
 }
 
+/// The location and message of the last panic caught on this thread during a simulation.
+pub fn take_panic_info() -> Option<String> {
+    PANIC_INFO.with(|p| p.borrow_mut().take())
+}
+
 /// One published round as seen by the callback.
 #[derive(Debug, Clone)]
 pub struct RoundRec {
@@ -174,7 +179,12 @@ pub fn run_scenario(sc: Scenario, tape: Tape, opts: RunOpts) -> RunRecord {
     install_panic_hook();
     let tick_seed = simcore::mix64(u64::from(sc.tracer.initial_seq) ^ (u64::from(sc.net.ecmp_salt) << 20) ^ 0x71c6);
     let t_start = clock::EPOCH_NS + u64::from(sc.net.ecmp_salt % 1000) * 1_000_003;
-    let world = World::new(sc.clone(), tape);
+    let mut world = World::new(sc.clone(), tape);
+    if let Some(m) = sc.mutation {
+        // the enumerated corruption is part of what distinguishes one run from another
+        let key = (u64::from(m.field) << 40) | (u64::from(m.value) << 20) | u64::from(m.trunc.map_or(0xfffff, u32::from));
+        world.ev(30, key ^ simcore::fnv1a(sc.tracer.cell().as_bytes()), 0);
+    }
     WORLD.with(|w| *w.borrow_mut() = Some(world));
     let rounds: RefCell<Vec<RoundRec>> = RefCell::new(Vec::new());
     let built = build_tracer(&sc);
@@ -243,7 +253,7 @@ pub fn run_scenario(sc: Scenario, tape: Tape, opts: RunOpts) -> RunRecord {
             end
         }
     };
-    let t_end = clock::now();
+    let t_end = clock::now().max(t_start);
     clock::disable();
     let clock_log = clock::log_snapshot();
     let mut world = WORLD.with(|w| w.borrow_mut().take()).expect("world");
